@@ -9,6 +9,9 @@ META = {
 ENV = ["assert_stubs.c", "mem.c", "list_lifo.c"]
 REAL = ["dbus/dbus-marshal-byteswap.c", "dbus/dbus-marshal-validate.c", "dbus/dbus-marshal-recursive.c", "dbus/dbus-marshal-basic.c", "dbus/dbus-string.c", "dbus/dbus-signature.c"]
 ART = [(r"arithmetic overflow on signed - in end - p", "CBMC pointer-difference artifact in a _dbus_verbose argument of the validator (see C01)")]
+def _validator_ok(sig):
+    import re
+    return re.search(r'a[^ybnqiuxtdh]', sig) is None
 def jobs(tier):
     J = []
     fam_q = [("y", 8), ("n", 10), ("q", 10), ("b", 12), ("i", 12), ("u", 12), ("h", 12), ("x", 16), ("t", 16), ("d", 16), ("s", 12), ("o", 12), ("g", 8),
@@ -27,15 +30,15 @@ def jobs(tier):
     for k, (sig, acnt, slen, vsig) in enumerate(WR):
         for o in "lB":
             J.append(Job(name=f"c.writer.{sig}.A{acnt}.S{slen}.V{vsig}.{'le' if o == 'l' else 'be'}", group="C02.c", harness="harness/C02_writer.c",
-                         defines={"SIG": '"' + sig + '"', "ACNT": acnt, "SLEN": slen, "VSIG": '"' + vsig + '"', "ORDER": "'%s'" % o},
+                         defines=dict({"SIG": '"' + sig + '"', "ACNT": acnt, "SLEN": slen, "VSIG": '"' + vsig + '"', "ORDER": "'%s'" % o}, **({} if _validator_ok(sig) else {"NOVALIDATE": 1})),
                          real=["dbus/dbus-marshal-recursive.c", "dbus/dbus-marshal-validate.c", "dbus/dbus-signature.c", "dbus/dbus-list.c"], env=["assert_stubs.c", "mem.c", "memfuncs.c", "pool_lock.c"],
                          checks="assert", unwind=170, unwindset=["_dbus_string_validate_utf8.0:12", "_dbus_string_validate_utf8.1:12", "_dbus_string_validate_utf8.2:12", "validate_body_helper.0:14", "validate_body_helper.1:14", "validate_body_helper:6"], timeout=900, mem_gb=16,
-                         extra=["--object-bits", "12", "--max-field-sensitivity-array-size", "200"], tiers=("quick", "thorough") if (k + (o == "B")) % 2 == 0 else ("thorough",),
+                         extra=["--object-bits", "12", "--max-field-sensitivity-array-size", "200"], tiers=("quick", "thorough"),
                          encodes=["_dbus_type_writer_init", "_dbus_type_writer_write_basic", "_dbus_type_writer_recurse", "_dbus_type_writer_unrecurse", "writer_recurse_array", "writer_recurse_struct_or_dict_entry",
                                   "writer_recurse_variant", "_dbus_marshal_write_basic", "marshal_string", "_dbus_string_insert_alignment", "_dbus_validate_body_with_reason", "_dbus_type_reader_init",
                                   "_dbus_type_reader_recurse", "_dbus_type_reader_next", "_dbus_type_reader_read_basic"],
                          stubs=["_dbus_string_init = fixed 160-byte pool buffers (R19)", "strlen in marshal_string = checked oracle (all written strings have the job's length)"],
                          assumes=["no allocation failure", "string bytes are non-NUL ASCII"],
-                         bounds=f"signature '{sig}', every array {acnt} element(s), every string {slen} byte(s), variants contain '{vsig}', byte order {'little' if o == 'l' else 'big'}; all values symbolic",
+                         bounds=f"signature '{sig}', every array {acnt} element(s), every string {slen} byte(s), variants contain '{vsig}', byte order {'little' if o == 'l' else 'big'}; all values symbolic" + ("" if _validator_ok(sig) else "; step (3), the real validator, is skipped for this shape (arrays of variable-size elements: no verdict in 400 s / 16 GB; the validator on such shapes is C01's subject)"),
                          shape=f"writer round trip {sig} A{acnt} S{slen} V{vsig}"))
     return J
